@@ -135,7 +135,7 @@ func (e *Engine) callFunction(st *State, fr *Frame, site ssa.Instruction, callee
 		}
 	}
 	if ct != nil && !ct.Inline {
-		e.applyContract(st, fr, site, target, ct, args, k)
+		e.applyContract(st, fr, site, target, ct, args, k, bind...)
 		return
 	}
 	if len(target.Blocks) > 0 && fr.depth < maxInlineDepth && !isSelf {
@@ -553,13 +553,19 @@ func resultNames(fn *ssa.Function) []string {
 	return out
 }
 
-func (e *Engine) contractEnv(st *State, callee *ssa.Function, args []Value, res []Value, oldHeap map[string]Term, oldNext Term) *SpecEnv {
+func (e *Engine) contractEnv(st *State, callee *ssa.Function, args []Value, res []Value, oldHeap map[string]Term, oldNext Term, bind ...Value) *SpecEnv {
 	env := &SpecEnv{e: e, st: st, vars: map[string]specVal{}, oldHeap: oldHeap, oldNext: oldNext, pkg: pkgPathOf(callee), callSite: true}
 	// a pseudo frame gives access to package constants
 	env.fr = &Frame{fn: callee, vals: map[ssa.Value]Value{}, names: map[string]ssa.Value{}, nameAddr: map[string]bool{}, nameOver: map[string]Value{}}
 	for i, p := range callee.Params {
 		if i < len(args) {
 			env.vars[p.Name()] = specVal{args[i], p.Type()}
+		}
+	}
+	// a closure's contract may mention the variables it captured
+	for i, fv := range callee.FreeVars {
+		if i < len(bind) {
+			env.fr.vals[fv] = bind[i]
 		}
 	}
 	if res != nil {
@@ -574,7 +580,7 @@ func (e *Engine) contractEnv(st *State, callee *ssa.Function, args []Value, res 
 	return env
 }
 
-func (e *Engine) applyContract(st *State, fr *Frame, site ssa.Instruction, callee *ssa.Function, ct *Contract, args []Value, k cont) {
+func (e *Engine) applyContract(st *State, fr *Frame, site ssa.Instruction, callee *ssa.Function, ct *Contract, args []Value, k cont, bind ...Value) {
 	ck := displayKey(callee)
 	siteName := ""
 	if site != nil {
@@ -592,7 +598,7 @@ func (e *Engine) applyContract(st *State, fr *Frame, site ssa.Instruction, calle
 			e.Assert(st, fr, "pre("+ck+")", "recv!=nil@"+siteName, Neq(p.Ref, TZero))
 		}
 	}
-	env := e.contractEnv(st, callee, args, nil, nil, Term{})
+	env := e.contractEnv(st, callee, args, nil, nil, Term{}, bind...)
 	for _, cl := range ct.Requires {
 		c := env.Bool(cl.E)
 		e.Assert(st, fr, "pre("+ck+")", cl.Label+"@"+siteName, c)
@@ -620,7 +626,7 @@ func (e *Engine) applyContract(st *State, fr *Frame, site ssa.Instruction, calle
 		}
 	}
 	res := e.freshResults(st, callee.Signature, shortName(ck))
-	env2 := e.contractEnv(st, callee, args, res, oldHeap, oldNext)
+	env2 := e.contractEnv(st, callee, args, res, oldHeap, oldNext, bind...)
 	_ = oldEpoch
 	for _, cl := range ct.Ensures {
 		st.Assume(env2.Bool(cl.E))
